@@ -7,6 +7,10 @@ info = {}
 for f in glob.glob('/verif/seeded/rounds-*.json'):
     info.update(json.load(open(f)).get(letter, {}))
 extra = {"C11": " — the panic shows in the debug profile, the wrong value in release", "C17": " — demonstration built with RUSTFLAGS=--cfg substrate_fixed_verif", "C10": " — demonstration built with --features serde"}
+for f in glob.glob('/verif/seeded/rounds-*.json'):
+    ex = json.load(open(f)).get(letter + "_demo_flags")
+    if ex is not None:
+        extra = {k: " — demonstration run with " + v for k, v in ex.items()}
 ver = {}
 for l in open(vlog):
     m = re.match(r'(C\d\d)-%s \| (.*)' % letter, l.strip())
